@@ -51,7 +51,7 @@ fn new_col_cfg(kind: ColKind, seed: u64) -> ColCfg {
 	}
 	let preimage_vals =
 		if kind.is_preimage() { keys.iter().map(|_| ValSpec { len: 12, seed: r.next(), compressible: false }).collect() } else { Vec::new() };
-	ColCfg { kind, compression: 0, threshold: 4096, keys, preimage_vals }
+	ColCfg { kind, compression: 0, threshold: 4096, keys, preimage_vals, bulk: None }
 }
 
 pub fn admin(ex: &mut Exec, a: &AdminOp, pending: bool) {
